@@ -348,7 +348,7 @@ func ruleShrinkReserve(c *Ctx, id string) {
 // count decide something: compare it, return it, or put it in the reply.
 func ruleShortWrite(c *Ctx, id string) {
 	V, P, R := c.V, c.P, c.R
-	R.Rule(id, "no short write is taken for a whole one: every caller of Inode.Write uses the byte count it returns (compares it with what it asked for, or reports it)", 4)
+	R.Rule(id, "no short write is taken for a whole one: every caller of Inode.Write uses the byte count it returns (compares it with what it asked for, or reports it)", 3)
 	w := V.InodeWrite
 	if w == nil {
 		return
